@@ -103,7 +103,9 @@ int LLVMFuzzerTestOneInput(const uint8_t *data, size_t size)
 #else
 static void dump_templates(uint64_t seed)
 {
-	static const char *SPECS[] = { "oct:32", "oct:7", "rsa:2048", "ec:P-256", "ec:P-384", "ec:P-521", "ec:secp256k1", "okp:Ed25519", "okp:Ed448" };
+	/* the last curves are not JOSE curves: the library hands any curve name to the crypto library, which knows them (points wider than P-521's) */
+	static const char *SPECS[] = { "oct:32", "oct:7", "rsa:2048", "ec:P-256", "ec:P-384", "ec:P-521", "ec:secp256k1", "okp:Ed25519", "okp:Ed448",
+		"ec:sect571r1", "ec:sect571k1", "ec:brainpoolP512r1", "ec:sect409r1", "ec:secp224r1" };
 	vh_rng_t r;
 	vh_rng_seed(&r, seed, 31337);
 	for (size_t i = 0; i < sizeof(SPECS) / sizeof(*SPECS); i++) {
